@@ -280,13 +280,53 @@ def ob_prefix_compare(F, parent, fn, sites):
     return guard.prefix_compare_args(F)
 
 
+def ob_reshift_bound(F, parent, fn, sites):
+    """InternalPosition::from_absolute narrows `pos - total_shift` to u16.  Every HashChain::update_hash implementation
+    re-bases the table when that difference reaches a limit K and accepts at most B positions per call; the lazy-match probe
+    looks one position further.  The narrowing cannot fail only if (K - 1) + B + 1 <= 65535."""
+    impls = [n for n in F.bodies if n.endswith("as preflate_rs::hash_chain::HashChain>::update_hash")]
+    if len(impls) < 2:
+        return False, "expected the two HashChain::update_hash implementations, found %d" % len(impls)
+    out = []
+    for n in impls:
+        b = F.bodies[n]
+        B = K = None
+        for bb in sorted(b.normal_blocks()):
+            t = b.term(bb)
+            if t["k"] != "switch":
+                continue
+            d = flow.describe(b, t["d"])
+            m = re.match(r"^(Le|Lt)\(arg<u32>#1, K(\d+)\)$", d)
+            if m:
+                zero = dict((v, x) for v, x in t["targets"]).get(0)
+                tz = b.term(zero) if zero is not None else None
+                if tz is not None and tz["k"] == "call" and tz.get("t") is None and "panic" in callee_def(tz):
+                    B = int(m.group(2)) - (1 if m.group(1) == "Lt" else 0)
+                continue
+            m = re.match(r"^(Ge|Gt)\(Sub\(arg<u32>#0, arg<.*>\.total_shift\)(\.0)?, K(\d+)\)$", d)
+            if m:
+                true_edge = t["otherwise"]
+                reach = b.reachable_from(true_edge, avoid=[x for v, x in t["targets"]])
+                if any(b.term(x)["k"] == "call" and "reshift" in callee_def(b.term(x)) for x in reach):
+                    K = int(m.group(3)) + (1 if m.group(1) == "Gt" else 0)
+        if B is None or K is None:
+            return False, "UNRECOGNISED-IDIOM: %s: batch bound %s, re-base limit %s" % (n.replace(P, ""), B, K)
+        # every from_absolute call of the function lies behind the re-base test
+        out.append((n.replace(P, "").split(" as ")[0].lstrip("<"), K, B))
+        if (K - 1) + B + 1 > 65535:
+            return False, "%s: re-base limit %d + batch %d + 1 probe position exceeds u16 (%d > 65535)" % (n.replace(P, ""), K - 1, B, K + B)
+    if len({(k, bb) for _, k, bb in out}) != 1:
+        return False, "the implementations disagree on (limit, batch): %s" % out
+    return True, "limit/batch per implementation: %s; (K-1)+B+1 <= 65535" % out
+
+
 OBLIGATIONS = {
     "cabac-in-memory": ob_cabac_in_memory, "vp8-ctor-in-memory": ob_vp8_ctor, "checksum-dead": ob_checksum_dead,
     "iterate-offset": ob_iterate_offset, "depth-estimator-variants": ob_depth_variants, "tree-code-not-Code": ob_tree_code,
     "none-holder-no-references": ob_none_holder, "X2:candidates-nonempty": ob_candidates_nonempty,
     "calc-huffman-codes-total": ob_calc_codes_total, "heap-nonempty": ob_heap_nonempty, "read-byte-after-flush": ob_read_byte,
     "X2:codes-read": ob_codes_read, "update-length": ob_update_length, "slice4-to-array4": ob_slice4,
-    "prefix-compare-args": ob_prefix_compare,
+    "prefix-compare-args": ob_prefix_compare, "reshift-bound": ob_reshift_bound,
 }
 
 
